@@ -141,13 +141,15 @@ Definition arr_or_null (l : list json) : json :=
 Definition update_entry (cur : list json) (e : json) : list json :=
   map (fun x => if bytes_eqb (jid x) (jid e) then e else x) cur.
 
-(* the loop of applyAddPublicKeys / applyAddServiceEndpoints; [ex_ids] are the ids of the entries that were in the
-   document BEFORE the patch (existingPublicKeysMap is computed once) *)
-Fixpoint add_entries_go (ex_ids : list bytes) (cur : list json) (adds : list json) : list json :=
+(* the loop of applyAddPublicKeys / applyAddServiceEndpoints; [ids] is the key set of existingPublicKeysMap: the ids
+   of the entries that were in the document before the patch, plus (since commit 94b5572) the id of every entry
+   appended so far by this patch, so an id repeated within one patch overwrites the entry appended earlier *)
+Fixpoint add_entries_go (ids : list bytes) (cur : list json) (adds : list json) : list json :=
   match adds with
   | [] => cur
   | e :: r =>
-    add_entries_go ex_ids (if bmem (jid e) ex_ids then update_entry cur e else cur ++ [e]) r
+    if bmem (jid e) ids then add_entries_go ids (update_entry cur e) r
+    else add_entries_go (ids ++ [jid e]) (cur ++ [e]) r
   end.
 
 Definition add_entries (existing adds : list json) : list json :=
@@ -156,11 +158,11 @@ Definition add_entries (existing adds : list json) : list json :=
 Definition remove_entries (existing : list json) (ids : list bytes) : list json :=
   filter (fun e => negb (bmem (jid e) ids)) existing.
 
-(* the loop of applyAddAlsoKnownAs: membership is tested against the URIs present BEFORE the patch *)
+(* the loop of applyAddAlsoKnownAs: [ex] is the key set of existingURIs, extended with every URI appended *)
 Fixpoint add_uris_go (ex : list bytes) (cur : list bytes) (adds : list bytes) : list bytes :=
   match adds with
   | [] => cur
-  | u :: r => add_uris_go ex (if bmem u ex then cur else cur ++ [u]) r
+  | u :: r => if bmem u ex then add_uris_go ex cur r else add_uris_go (ex ++ [u]) (cur ++ [u]) r
   end.
 
 Definition add_uris (existing adds : list bytes) : list bytes := add_uris_go existing existing adds.
@@ -198,7 +200,8 @@ Definition apply_replace (v : json) : res :=
 
 Section WithJsonPatch.
   (* ORACLE: github.com/evanphx/json-patch.  [jp_apply patches doc] = DecodePatch(marshal patches) followed by
-     Apply(canonical bytes of doc), decoded; [None] when either step fails. *)
+     Apply(canonical bytes of doc), decoded; [None] when either step fails OR PANICS: since commit 9f6d729 applyJSON
+     recovers a panic of the library and returns it as an error. *)
   Variable jp_apply : json (* patch array *) -> json (* doc *) -> option json.
 
   (* applyJSON: the patched bytes go through document.FromBytes (Unmarshal into a map): object -> that map,
@@ -401,11 +404,11 @@ Example ex_remove_all :
   = Some (JObj [(d_publicKey, JNull)]).
 Proof. vm_compute. reflexivity. Qed.
 
-(* the same id twice in one patch: both are appended *)
+(* the same id twice in one patch: the later entry replaces the one appended earlier, at its position *)
 Example ex_dup_in_patch :
   apply_patches jp_none (JObj [])
-    [mk_patch a_add_pk pk_publicKeys (JArr [ex_key "k1" "a"; ex_key "k1" "b"])]
-  = Some (JObj [(d_publicKey, JArr [ex_key "k1" "a"; ex_key "k1" "b"])]).
+    [mk_patch a_add_pk pk_publicKeys (JArr [ex_key "k1" "a"; ex_key "k2" "x"; ex_key "k1" "b"])]
+  = Some (JObj [(d_publicKey, JArr [ex_key "k1" "b"; ex_key "k2" "x"])]).
 Proof. vm_compute. reflexivity. Qed.
 
 Example ex_atomic_fail :
